@@ -32,6 +32,8 @@
 //	          vt the accepted DIAL-ASYNCH / RECONNECT-TIME decide what that dialer's Dial and redial do
 //	ctxq      a READQ-LEN accepted by the socket is the number of messages a SUB / SURVEYOR context opened
 //	          afterwards holds while nobody receives
+//	ownopt    RETRY-TIME / SURVEY-TIME / RECV-DEADLINE accepted with different values by the socket and by its
+//	          contexts: each object's own value decides its own request, survey or Recv
 package c19
 
 import (
@@ -176,6 +178,9 @@ func caseList(r *mon.Runner) []mon.CaseSpec {
 	for _, s := range ctxqPlans(r, rnd) {
 		add(s)
 	}
+	for _, s := range ownoptPlans(r, rnd) {
+		add(s)
+	}
 	return cases
 }
 
@@ -219,6 +224,8 @@ func TestC19(t *testing.T) {
 			runPropagate(c, sp)
 		case "ctxq":
 			runCtxQ(c, sp)
+		case "ownopt":
+			runOwnOpt(c, sp)
 		default:
 			panic("unknown case kind " + sp.Kind)
 		}
